@@ -202,10 +202,13 @@ def startLt (p : NProg) (pos : Pos) (s : Nat) : Bool :=
 def firstDefBefore (p : NProg) (pos : Pos) (chain : List Nat) : Nat :=
   (chain.find? (startLt p pos)).getD 0
 
-/-- the `parent()` step of a lambda's name lands on the next named context of the chain
-(false for a lambda whose context is a class body: `FunctionValue.from_context` skips it) -/
+/-- the lambda `t` does not sit in the header (default, annotation, base) of the `def` / `class`
+that is its `parent_scope`: `create_context(lambda node)` is then that scope itself, and the
+`parent()` step of the lambda's name lands on the next named context of the chain -/
 def LamOK (p : NProg) (t : Nat) : Bool :=
-  (ctxParent p t).map (skipComps p p.fuel) == some (skipComps p p.fuel (p.pscope t))
+  match p.scopes[t]? with
+  | none => false
+  | some sc => scopeOfNode p sc.start sc.pscope false == sc.pscope
 
 /-- every lambda between scope `c` and the first `def` / `class` / module above it is `LamOK` -/
 def lamSegOK (p : NProg) : Nat → Nat → Bool
@@ -216,20 +219,20 @@ def lamSegOK (p : NProg) : Nat → Nat → Bool
     | .lambda => LamOK p c && lamSegOK p f (p.pscope c)
     | .comp => lamSegOK p f (p.pscope c)
 
-/-- no definition of the chain that starts before `pos` starts at or right of `pos`'s column -/
+/-- no definition of the chain that starts before `pos` has its statement (`async def`: the
+`async` keyword) starting at or right of `pos`'s column -/
 def noDedent (p : NProg) (pos : Pos) (chain : List Nat) : Bool :=
   chain.all fun s =>
     match p.scopes[s]? with
-    | some sc => !decide (sc.start < pos) || decide (sc.start.col < pos.col)
+    | some sc => !decide (sc.start < pos) || decide (sc.stmt.col < pos.col)
     | none => true
 
 /-- hypothesis of `context_is_innermost_body_partial` for the chosen leaf: the position is on the
-leaf (not in a prefix), every enclosing definition starts left of the position's column, and the
-position is in a `def` / `class` header or no lambda on the way up sits directly in a class body -/
+leaf (not in a prefix) and the statement of every enclosing definition starts left of the
+position's column -/
 def LeafHyp (p : NProg) (pos : Pos) (l : Leaf) : Bool :=
   decide (l.start ≤ pos) && decide (pos ≤ l.stop) &&
-  noDedent p pos (defChain p p.fuel l.pscope) &&
-  ((headerOf p pos l).isSome || lamSegOK p p.fuel l.pscope)
+  noDedent p pos (defChain p p.fuel l.pscope)
 
 def ContextHyp (p : NProg) (pos : Pos) : Bool :=
   match chooseLeaf p pos with
@@ -242,7 +245,8 @@ def ContextHyp (p : NProg) (pos : Pos) : Bool :=
 /-- positional part of well-formedness: a `def` / `class` keyword precedes its colon and follows
 the start of the `def` / `class` it sits in; a leaf that starts in a header ends in the header;
 the innermost definition around a leaf starts at or before it, and the leaf that starts where the
-definition starts is its keyword -/
+definition starts is its keyword; a leaf below a lambda that sits in the header of a `def` /
+`class` lies in that header itself -/
 def WFL (p : NProg) : Bool :=
   (p.scopes.all fun sc => !(sc.kind == .function || sc.kind == .klass) ||
     (decide (sc.start < sc.colon) &&
@@ -260,7 +264,14 @@ def WFL (p : NProg) : Bool :=
         | some sc => decide (sc.start ≤ l.start) &&
             (!(sc.start == l.start) || (l.pscope == n && !l.isParamName))
         | none => false)
-     | none => true))
+     | none => true) &&
+    (lamSegOK p p.fuel l.pscope ||
+      (match (defChain p p.fuel l.pscope).head? with
+       | some n =>
+         (match p.scopes[n]? with
+          | some sc => decide (sc.start < l.start) && decide (l.stop ≤ sc.suite)
+          | none => false)
+       | none => false)))
 
 def WF (p : NProg) : Bool := WFS p && WFL p
 
@@ -421,6 +432,25 @@ theorem skipComps_fromScope {p : NProg} (h : WFS p = true) (st : Pos) :
       rfl
 
 
+/-- the `parent()` step of the name of a lambda that does not sit in a header: the next named
+context of the chain (class bodies included) -/
+theorem parentOfScope_lambda {p : NProg} (h : WFS p = true) {c : Nat} (hc : c < p.scopes.length)
+    (hk : p.kind c = .lambda) (hok : LamOK p c = true) :
+    parentOfScope p c = some (skipComps p p.fuel (p.pscope c)) := by
+  have hs : p.scopes[c]? = some p.scopes[c] := List.getElem?_eq_getElem hc
+  have hlt := WFS.pscope_lt h (s := c) (by rw [hk]; simp)
+  unfold LamOK at hok
+  rw [hs] at hok
+  simp only [beq_iff_eq] at hok
+  unfold parentOfScope
+  rw [hk]
+  simp only
+  unfold nodeCtx
+  rw [hs]
+  simp only
+  unfold createContext
+  rw [hok, skipComps_fromScope h _ _ _ (by rw [← pscope_of_scope hs]; omega), pscope_of_scope hs]
+
 theorem firstDefBefore_cons_hit {p : NProg} {pos : Pos} {c : Nat} {rest : List Nat}
     (h : startLt p pos c = true) : firstDefBefore p pos (c :: rest) = c := by
   simp [firstDefBefore, List.find?, h]
@@ -461,7 +491,7 @@ theorem walkUp_chain {p : NProg} (h : WFS p = true) (pos : Pos) :
         rw [defChain_eq h c hc, hk] at hnd hhead ⊢
         simp only at hnd hhead ⊢
         have hst := hhead c rfl
-        have hcol : decide (p.scopes[c].start.col < pos.col) = true := by
+        have hcol : decide (p.scopes[c].stmt.col < pos.col) = true := by
           simp only [noDedent, List.all_cons, Bool.and_eq_true, hs] at hnd
           have h1 := hnd.1
           simp only [startLt, hs] at hst
@@ -475,7 +505,7 @@ theorem walkUp_chain {p : NProg} (h : WFS p = true) (pos : Pos) :
         rw [defChain_eq h c hc, hk] at hnd hhead ⊢
         simp only at hnd hhead ⊢
         have hst := hhead c rfl
-        have hcol : decide (p.scopes[c].start.col < pos.col) = true := by
+        have hcol : decide (p.scopes[c].stmt.col < pos.col) = true := by
           simp only [noDedent, List.all_cons, Bool.and_eq_true, hs] at hnd
           have h1 := hnd.1
           simp only [startLt, hs] at hst
@@ -493,13 +523,8 @@ theorem walkUp_chain {p : NProg} (h : WFS p = true) (pos : Pos) :
         simp only [hm, hd, Bool.false_and, Bool.false_eq_true, if_false]
         rw [lamSegOK_eq h c hc, hk] at hlam
         simp only [Bool.and_eq_true] at hlam
-        have hpar : parentOfScope p c = some (skipComps p p.fuel (p.pscope c)) := by
-          unfold parentOfScope
-          rw [hk]
-          simp only
-          have := hlam.1
-          unfold LamOK at this
-          exact eq_of_beq this
+        have hpar : parentOfScope p c = some (skipComps p p.fuel (p.pscope c)) :=
+          parentOfScope_lambda h hc hk hlam.1
         rw [hpar]
         simp only
         have hp : p.pscope c < p.scopes.length := by omega
@@ -853,23 +878,118 @@ theorem innermostBody_eq_firstDefBefore {p : NProg} (h : WFS p = true) (pos : Po
     rw [sorted_getLast (enclosers_sorted p pos) hxE hmax]
 
 /-- where the `parent()` chain of a definition starts on the tree: a `def` / `class` name at the
-scope its statement sits in, a parameter or an assigned name at its own scope -/
+scope its statement sits in, a parameter at its own scope, an assigned name at its own scope or —
+directly in a `def` / `class` header — at the scope around that definition -/
 def chainStart (p : NProg) (l : Leaf) : Nat :=
   match l.role with
   | .defName s => p.pscope s
+  | .bind => scopeOfNode p l.start l.pscope l.isParamName
   | _ => l.pscope
 
-/-- hypothesis of `parent_chain_eq_enclosing_partial`: definitions only; an assigned name must sit
-in a body (not in a header) and its first named context must not be a lambda -/
-def ChainHyp (p : NProg) (i : Nat) : Bool :=
+/-- the leaf is a definition `get_names` lists (`def` / `class` name of a scope of the table,
+parameter, assigned name) -/
+def IsDefinition (p : NProg) (i : Nat) : Bool :=
   match p.leaves[i]? with
   | none => false
   | some l =>
     match l.role with
     | .defName s => decide (s < p.scopes.length) && p.isDef s
     | .param => true
-    | .bind => (scopeOfNode p l.start l.pscope l.isParamName == l.pscope) &&
-        (p.kind (skipComps p p.fuel l.pscope) != .lambda)
+    | .bind => true
     | _ => false
+
+/-- hypothesis of `parent_chain_eq_enclosing_partial`: a definition; for an assigned name no
+lambda between it and the first `def` / `class` around it sits in the header of that definition -/
+def ChainHyp (p : NProg) (i : Nat) : Bool :=
+  IsDefinition p i &&
+  (match p.leaves[i]? with
+   | none => false
+   | some l =>
+     match l.role with
+     | .bind => lamSegOK p p.fuel (chainStart p l)
+     | _ => true)
+
+/-- hypothesis of `parent_chain_exact`: a definition whose first named context is not a lambda -/
+def NoLambdaHyp (p : NProg) (i : Nat) : Bool :=
+  IsDefinition p i &&
+  (match p.leaves[i]? with
+   | none => false
+   | some l =>
+     match l.role with
+     | .bind => p.kind (skipComps p p.fuel (chainStart p l)) != .lambda
+     | _ => true)
+
+def notLambda (p : NProg) (s : Nat) : Bool := p.kind s != .lambda
+
+theorem scopeOfNode_lt {p : NProg} (h : WFS p = true) (st : Pos) (s : Nat) (b : Bool)
+    (hs : s < p.scopes.length) : scopeOfNode p st s b < p.scopes.length := by
+  unfold scopeOfNode
+  have hs' : p.scopes[s]? = some p.scopes[s] := List.getElem?_eq_getElem hs
+  rw [hs']
+  simp only
+  split
+  · rename_i hc
+    simp only [Bool.and_eq_true, Bool.or_eq_true, beq_iff_eq] at hc
+    have hne : p.kind s ≠ .module := by
+      rw [kind_of_scope hs']
+      rcases hc.1.1 with h1 | h1 <;> rw [h1] <;> simp
+    have := WFS.pscope_lt h hne
+    rw [pscope_of_scope hs'] at this
+    omega
+  · exact hs
+
+theorem filter_notLambda_defChain {p : NProg} (h : WFS p = true) (x : Nat) :
+    (defChain p p.fuel x ++ [0]).filter (notLambda p) = defChain p p.fuel x ++ [0] := by
+  rw [List.filter_eq_self]
+  intro s hs
+  unfold notLambda
+  rcases List.mem_append.mp hs with h1 | h1
+  · have := mem_defChain_isDef p p.fuel x s h1
+    unfold NProg.isDef at this
+    cases hk : p.kind s <;> simp [hk] at this ⊢
+  · simp only [List.mem_singleton] at h1
+    subst h1
+    rw [WFS.kind0 h]
+    rfl
+
+/-- iterating `parent()` from the first named context of scope `x`: the lambdas on the way to the
+first `def` / `class` (none of them in its header), then exactly the definitions of the chain,
+then the module -/
+theorem chainFrom_filter {p : NProg} (h : WFS p = true) :
+    ∀ x, x < p.scopes.length → lamSegOK p p.fuel x = true →
+      ∀ f, x < f → (chainFrom p f (skipComps p p.fuel x)).filter (notLambda p) =
+        defChain p p.fuel x ++ [0] := by
+  intro x
+  induction x using Nat.strongRecOn with
+  | _ x ih =>
+    intro hx hlam f hf
+    have sp := skipComps_spec h x hx
+    have hc : skipComps p p.fuel x < p.scopes.length := by omega
+    cases hk : p.kind (skipComps p p.fuel x) with
+    | comp => exact absurd hk sp.2.1
+    | module =>
+      rw [chainFrom_def h _ hc (Or.inr hk) f (by omega), sp.2.2.1]
+      exact filter_notLambda_defChain h x
+    | function =>
+      rw [chainFrom_def h _ hc (Or.inl (by simp [NProg.isDef, hk])) f (by omega), sp.2.2.1]
+      exact filter_notLambda_defChain h x
+    | klass =>
+      rw [chainFrom_def h _ hc (Or.inl (by simp [NProg.isDef, hk])) f (by omega), sp.2.2.1]
+      exact filter_notLambda_defChain h x
+    | lambda =>
+      have hlamc := sp.2.2.2 hlam
+      rw [lamSegOK_eq h _ hc, hk] at hlamc
+      simp only [Bool.and_eq_true] at hlamc
+      have hlt := WFS.pscope_lt h (s := skipComps p p.fuel x) (by rw [hk]; simp)
+      cases f with
+      | zero => omega
+      | succ f =>
+        unfold chainFrom
+        rw [parentOfScope_lambda h hc hk hlamc.1]
+        simp only
+        have hnl : notLambda p (skipComps p p.fuel x) = false := by simp [notLambda, hk]
+        rw [List.filter_cons_of_neg (by simp [hnl])]
+        rw [ih _ (by omega) (by omega) hlamc.2 f (by omega)]
+        rw [← sp.2.2.1, defChain_eq h _ hc, hk]
 
 end JediModel.Nesting
